@@ -33,7 +33,7 @@ ASSUMPTIONS = ["value equality is decided on the states simulated histories reac
                "TD7 and MR.Q representation losses legitimately read the successor and are excluded from the corrupt_terminated fault",
                "smoothed target actions (TD3 family with noise_clip > 0) are read from a probe on the supplied target critic; an update whose target action cannot be attributed is counted unchecked",
                "MR.Q reward scales are taken as the routine reports them ('reward scale' statistic); TD7 clipping range as reported for the same update, its running-range law is checked separately"]
-TIERS = {"quick": {"runs": 72}, "thorough": {"runs": 1800}}
+TIERS = {"quick": {"runs": 108}, "thorough": {"runs": 2400}}
 REQUIRED = ["terminated_successor_irrelevant", "corrupted_rows_sampled", "control_fault_changes_trace", "batch_order_irrelevant",
             "update_matches_reference:q_loss", "update_matches_reference:q_mean", "td_errors_match_reference", "update_on_mixed_terminated_batch",
             "update_with_active_value_clipping", "update_with_reward_scale_not_one", "update_matches_reference:embedding_loss", "update_matches_reference:weighted_loss"]
@@ -90,6 +90,14 @@ def value_plan(rng, name):
         c["target_delay"] = rng.choice([1, 2, 3, 5])
         c["target_policy_noise"] = rng.choice([0.0, 0.2])
         c["exploration_noise"] = rng.choice([0.0, 0.1, 0.2])
+    if name == "mrq":
+        # boundary: a terminated flag on the LAST step of the n-step window (with horizon 1: every terminated transition)
+        c["q_horizon"] = rng.choice([1, 1, 2, 3])
+        if rng.random() < 0.6:
+            for e in plan["env"]["script"]:
+                e["end"] = "term"
+                e["len"] = min(e["len"], rng.choice([2, 3, 5]))
+            plan["env"]["script"].insert(0, {"len": rng.choice([5, 6]), "end": "term"})
     if name == "td7":
         c["steps_before_checkpointing"] = rng.choice([0, 3, 10_000])
         c["lap_min_priority"] = rng.choice([1.0, 1.0, 0.25])
